@@ -73,6 +73,12 @@ def build_case(shard, vi, seed, ctor="Sigma", prep="fresh"):
         mx2 = np.concatenate([mx[:1] - 2.0, mx], axis=0)
         p_x = objs.mk_pdf("GaussianPDF", Sx2, mx2).slice(jnp.array(list(range(-Rx, 0))))
         return cond, kw, p_x, (Me, be, Sye, mx, Sx)
+    if prep == "replaced" and kind == "nncontrol":
+        # functional noise update: another instance whose Sigma is replaced through the dataclass replace()
+        other, kw, (Me, be, _) = objs.mk_cond(kind, M, b, Sy * 3.0, ctor=ctor)
+        cond = other.replace(Sigma=J(Sy[:1]))
+        p_x = objs.mk_pdf(px_kind, Sx, mx)
+        return cond, kw, p_x, (Me, be, np.tile(Sy[:1], (len(Me), 1, 1)), mx, Sx)
     if prep == "replaced" and kind in ("full", "diag"):
         # another conditional whose M and b are then replaced through the dataclass replace()
         other, kw, _ = objs.mk_cond(kind, M * -0.5 + 1.0, b + 2.0, Sy, ctor=ctor)
@@ -121,7 +127,7 @@ def run(shard, ctx, which):
             continue
         for N in ((2, 3) if tier == "thorough" else (2,)):
           if kind == "nncontrol":
-              preps = ("fresh", "updated") if vi in (0, 100) else ("fresh",)
+              preps = ("fresh", "updated", "replaced") if vi in (0, 100) else ("fresh",)
           elif ctor in ("Sigma", "b_none") and vi in (0, 100):
               preps = ("fresh", "sliced", "updated") + (("replaced",) if (kind in ("full", "diag") and ctor == "Sigma") else ())
           else:
